@@ -71,7 +71,8 @@ class StepEnv:
         if kind == 'alpha_beta':
             n0['in_check'] = z3.Bool('node_in_check')
             n0['repeated'] = z3.Bool('node_repeated')
-            n0['fifty'] = z3.Bool('node_fifty')
+            n0['fifty'] = z3.UGE(n0['hmc'], 100)
+            self.G.pre = [c for c in self.G.pre if 'g0_hmc' not in str(c)] + [z3.Implies(n0['repeated'], z3.UGE(n0['hmc'], 4))]
         elif kind == 'quiescence':
             n0['in_check'] = z3.Bool('node_in_check')     # not consulted by quiescence
         self.v = [z3.Int('v_child_%d' % i) for i in range(len(n0['children']))]     # true values of the children (their own point of view)
